@@ -6,6 +6,14 @@ claimed = {
    text="Deterministic simulation of the real client library against a scripted server peer over a simulated transport. The server->client stream of a fixed session is cut (EOF and reset) after every enumerated byte offset while schedules are sampled; beyond that a seeded swarm of faults (write errors, Unmount at a drawn step, unparseable / undersize / oversize frames, replies to unknown tags, peer close, stalled peer) lands inside sessions of 1..8 concurrent callers incl. the pipelined Tag interface. 'Never hangs' is decided exactly: at final quiescence, after all faults fired and all withheld replies were released, a caller that has not returned is blocked on something no goroutine can provide. Sampling of schedules, so evidence not proof.",
    note="Trusts: the instrumenter placing schedule points at every mutex/channel/select/go site of the client; the simulated net.Conn standing in for TCP (ordered reliable byte stream with cuts); the scripted peer's independent codec.",
    technique="deterministic simulation: seeded scheduler + simulated transport with enumerated stream cuts and injected faults; quiescence-based liveness oracle"),
+ "C03": dict(level="exploration", ref="§4 C03",
+   text="Deterministic simulation of the real server framework with a scripted implementation: raw client peers pipeline 1..64 requests of 9 types per connection on reused tags while the script finishes them in scheduler-chosen order (now, parked, after returning, from another goroutine, twice). Every reply on the wire is decoded by an independent codec and compared byte for byte with what the script produced first for that request; replies for tags with no outstanding request, second replies and missing replies at final quiescence are violations.",
+   note="Trusts the instrumenter's schedule points, the simulated transport and the harness codec. The stratum in which the duplicate answer is an Rerror is a recorded known finding (KNOWN_FINDINGS.txt).",
+   technique="deterministic simulation: seeded scheduler over instrumented server goroutines, scripted implementation with invocation log, wire-history oracle"),
+ "C07": dict(level="exploration", ref="§4 C07",
+   text="Deterministic simulation: Tflush is placed by construction and by the seeded scheduler at every stage of its target's life (same transport write, worker not yet started, queued behind a same-tag request, parked in the implementation with and without FlushOp, answering, already answered, flush of a flush, several flushes), the old tag is reused the moment Rflush arrives, and the wire order, the invocation log (step-stamped) and fid probes decide: one Rflush per Tflush, target reply never after its Rflush, no invocation after Rflush, no state left by cancelled requests.",
+   note="Trusts the instrumenter, simulated transport, harness codec; 'immediately' is decided at the first quiescence with unrelated requests still parked. A Tflush of a Tflush that gets cancelled leaves its target outstanding (protocol reading stated in DESIGN.md).",
+   technique="deterministic simulation: seeded scheduler placing flushes against request life stages; wire-order + step-stamped invocation log + probe oracle"),
 }
 na = {
  "C01": "pure function of (fields, dialect): no schedule, clock, fault or interleaving; deterministic simulation does not apply (DESIGN.md §1)",
